@@ -232,3 +232,19 @@ where
         *x = (*z) / (*y);
     }
 }
+
+// ---------------------------------------------------------------------------
+// verification hooks (feature `verif-hooks`): add-only read access to the
+// stored scaling.  No behaviour is added.
+// ---------------------------------------------------------------------------
+#[cfg(feature = "verif-hooks")]
+pub mod verif_hooks_nncone {
+    use super::*;
+
+    pub fn w<T: FloatT>(k: &NonnegativeCone<T>) -> &[T] {
+        &k.w
+    }
+    pub fn λ<T: FloatT>(k: &NonnegativeCone<T>) -> &[T] {
+        &k.λ
+    }
+}
